@@ -148,6 +148,30 @@ func (s *sndSUT) unsettledClass() string {
 		return "token-held-without-processing-entry"
 	case extra < 0:
 		return "processing-entry-held-without-token"
+	case s.started && !o.exited && extra == 1 && o.tok >= s.capacity && (o.queue > 0 || o.down):
+		// Every token is taken and there is one more than processing entries: that is what a loop inside Dequeue looks
+		// like (it holds one), and also what a loop waiting in `semaphore <-` behind a token kept by a finished push
+		// looks like.  The case has failed already, so probe: take one token out; a loop waiting for the semaphore
+		// grabs it at once (the semaphore is full again), a loop inside Dequeue does not care.
+		select {
+		case <-s.sem:
+			refilled := false
+			for k := 0; k < 600 && !refilled; k++ {
+				time.Sleep(time.Millisecond)
+				// the loop took it if the semaphore is full again, or it went on and dequeued something, or it left
+				now := s.q.VerifSnapshot()
+				refilled = len(s.sem) >= s.capacity || s.exited.Load() || len(now.Processing) != o.proc || len(now.Queue) != o.queue
+			}
+			if refilled {
+				return "token-kept-by-a-finished-push(loop-blocked-on-the-semaphore)"
+			}
+			s.sem <- struct{}{}
+		default:
+		}
+		if o.down {
+			return "loop-blocked-in-dequeue-after-shutdown"
+		}
+		return "queue-nonempty-loop-blocked-in-dequeue"
 	case s.started && !o.exited && extra == 1 && o.queue > 0 && !o.down:
 		return "queue-nonempty-loop-blocked-in-dequeue"
 	case s.started && !o.exited && extra == 1 && o.down:
@@ -177,7 +201,13 @@ func (s *sndSUT) settle() string {
 		if s.atRest(o) && (stable == 0 || o.text == last) {
 			stable++
 			last = o.text
-			if stable >= 8 {
+			// after a nil request has been enqueued the documented outcome is a crash of the sender loop; the state
+			// between its Dequeue and the panic looks like rest, so look for much longer before calling it rest
+			need := 8
+			if s.nilEnq {
+				need = 150
+			}
+			if stable >= need {
 				return o.text
 			}
 		} else {
